@@ -140,6 +140,17 @@ def nodes_of(edges):
     return sorted({x for e in edges for x in e})
 
 
+def dense_graph(rng, m=24):
+    """a DAG with more edges than an 8-bit index can count on fewer than 256 nodes (index arrays sized by the node count must
+    not be used for edge offsets): m labelled nodes, an edge i -> j for most j < i"""
+    labels = rng.sample(POOL_PLAIN[:150], m)
+    order = sorted(labels, key=key_of)
+    rng.shuffle(order)
+    es = [[order[i], order[j]] for i in range(m) for j in range(i) if (i - j) <= 14 or rng.random() < 0.8]
+    rng.shuffle(es)
+    return es
+
+
 def lookalikes(curie):
     """absent ids that a 'normalising' id class would take for `curie` (PREFIX:ID with ':'): other zero padding, sign, blanks
     around the parts, digit group separators, non-ASCII decimal digits, other letter case of the prefix.  As strings all of
